@@ -155,3 +155,16 @@ theorem processOrf_spec (cfg : Cfg) (w : Core) :
       (hset _ _).2.2.2.1, (hset _ _).2.2.2.2.1⟩
 
 end EaselModel.Gencode
+
+namespace EaselModel.Gencode
+open EaselModel.Alphabet
+/-- a first code outside the alphabet (`≥ Kp`, e.g. the sentinel 255 of a digital sequence) makes both functions read
+    `degen[]` out of bounds at once: their contract is "three valid digital residues" -/
+theorem out_of_alphabet_faults (nt aa : Alphabet) (g : Gencode) (a b c : Nat) (ha : nt.degen.length ≤ a) (hk : nt.K ≤ a) :
+    getTranslation nt aa g a b c = none ∧ isInitiator nt g a b c = none := by
+  have hc : nt.xIsCanonical a = false := by simp [Alphabet.xIsCanonical]; omega
+  have hd : nt.degen[a]? = none := List.getElem?_eq_none ha
+  constructor
+  · simp [getTranslation, hc, loopX, hd]
+  · simp [isInitiator, hc, loopX, hd]
+end EaselModel.Gencode
